@@ -217,6 +217,16 @@ pub fn c05(tier: Tier, replay: Option<String>) -> i32 {
     use super::longsession as ls;
     if let Some(path) = &replay {
         if let Ok(v) = std::fs::read_to_string(path).map_err(|e| e.to_string()).and_then(|s| serde_json::from_str::<serde_json::Value>(&s).map_err(|e| e.to_string())) {
+            if v["site"] == "scripted-reads" {
+                let sr = ls::scripted_read_cases();
+                let Some(c) = sr.get(v["index"].as_u64().unwrap_or(0) as usize) else { return 4 };
+                return match crate::report::guard(|| ls::run_scripted_reads(c)) {
+                    Ok(Ok(())) => { println!("replay: {} - held", c.label()); 0 },
+                    Ok(Err(e)) if e.starts_with("MACHINERY") => { eprintln!("{e}"); 4 },
+                    Ok(Err(e)) => { println!("VIOLATION property=C05 replay={path}\n  witness: {}: {e}", c.label()); 1 },
+                    Err(p) => { println!("VIOLATION property=C05 replay={path}\n  witness: {}: panicked: {p}", c.label()); 1 },
+                };
+            }
             if v["site"] == "builder-tcp" {
                 let case = ls::TcpCase { tokio: v["tokio"].as_bool().unwrap_or(false), compressed: v["compressed"].as_bool().unwrap_or(true), nodelay: v["nodelay"].as_bool().unwrap_or(true), chunk: v["chunk"].as_u64().unwrap_or(0) as usize };
                 return match crate::report::guard(|| ls::run_tcp(&case)) {
@@ -279,6 +289,21 @@ pub fn c05(tier: Tier, replay: Option<String>) -> i32 {
             return 1;
         }
     }
+    // scripted reads: the first four reads deliver a scripted number of bytes each (a reader that learns is seen)
+    let sr = ls::scripted_read_cases();
+    if replay.is_none() {
+        let results: Vec<Result<Result<(), String>, String>> = sr.par_iter().map(|c| crate::report::guard(|| ls::run_scripted_reads(c))).collect();
+        for (idx, (c, r)) in sr.iter().zip(results).enumerate() {
+            let what = match r { Ok(Ok(())) => continue, Ok(Err(e)) if e.starts_with("MACHINERY") => { eprintln!("{e}"); return 4; }, Ok(Err(e)) => e, Err(p) => format!("panicked: {p}") };
+            let path = format!("/verif/replays/C05/scripted-reads-{idx}.json");
+            println!("VIOLATION property=C05 replay={path}");
+            println!("  signature: C05|scripted-reads|{}", if c.tokio { "tokio" } else { "blocking" });
+            println!("  witness:   {}: {what}", c.label());
+            let _ = std::fs::create_dir_all("/verif/replays/C05");
+            let _ = std::fs::write(&path, json!({"property": "C05", "site": "scripted-reads", "index": idx, "case": c.label()}).to_string());
+            return 1;
+        }
+    }
     let labels: Vec<String> = cases.iter().map(|c| c.label()).collect();
     let tcp_labels = tcp.len();
     finish_with("C05", tier, replay, c05_instances(tier),
@@ -289,6 +314,7 @@ pub fn c05(tier: Tier, replay: Option<String>) -> i32 {
             "long sessions use the chunk set {1, to-boundary-1, to-boundary, to-boundary+1, boundary+next frame, everything} instead of every k".into(),
             "the long-session connections (one execution each, run before the search; a failure there is reported at once) push the session length, not the schedule: whole-frame repeating stream, reads as large as asked or 7 bytes".into(),
             "builder-tcp: 40 sessions over real loopback TCP through connections made by the public Builder (blocking / tokio x mode x nodelay x peer writing everything at once / 1 / 3 / 1021 / 4096 bytes at a time); the kernel cuts the reads, so these add the way the connection was made, not schedules".into(),
+            "scripted-reads (one execution each): two maximum-size frames, a SMALL, a TINY and another maximum-size frame, the first four reads delivering each of {all that is asked, 1, 100, 256, 300, half, all but one} bytes (7^4 scripts x implementation x mode)".into(),
         ],
         vec![("long_session_connections", json!(labels)), ("long_session_frames", json!(long_frames)), ("builder_tcp_connections", json!(tcp_labels))])
 }
